@@ -392,7 +392,16 @@ where
     }
 
     fn start_list(&mut self, len: Self::Size) -> Result<Self::Size, Self::Error> {
-        let allocation_size = len * 2;
+        // a length that cannot be allocated (e.g. taken from a range with a huge bound) is an error, not an overflow
+        let allocation_size = match len.checked_mul(2) {
+            Some(size) => size,
+            None => {
+                return Err(DataError::new(
+                    "Data block size exceeds max items",
+                    DataErrorType::DataBlockExceededMaxItems(len, self.data_block().settings.max_items()),
+                ));
+            }
+        };
         let list_index = self.push_to_data_block(BasicData::UninitializedList(len, 0))?;
         for _ in 0..allocation_size {
             self.push_to_data_block(BasicData::Empty)?;
